@@ -30,6 +30,13 @@ Streams
                version, vs `tryLoadStub` of Model/DiskCache (steps 2-4 of typeshed._try_to_load_stub with
                the directory-listing layer `_create_stub_map`; `Gen.C09.cfg.stubListingCached` is read
                from the decorators of that function)
+  nsportion    pkgutil / pkg_resources style namespace package `nsp` over 2-3 sys.path entries
+               (Project(added_sys_path=...)): portions `<entry>/nsp/` are created, filled, emptied, removed between
+               Scripts; every step asks for every module name of a pool (also absent ones: the lookup then walks all
+               candidate directories), same process / new process on the warm cache vs a fresh process
+  nspath       the real ModuleValue.py__path__ and the directory the module is found in vs Model/NsPath
+  nsfinder     the same histories through raw importlib.machinery.PathFinder in one process, candidates filtered by
+               isdir / unfiltered: found directory and negative path_importer_cache entries vs the model
   finder       the helper's importlib FileFinder keeps its directory listing while the directory's
                mtime does not change (known finding)
   wallclock    no explicit stamps at all: plain open()/write(), the kernel's own time stamps; a module is
@@ -53,8 +60,8 @@ import time
 import common
 from common import short
 
-MODELS = ['DiskCache']
-MODEL_TARGETS = ['JediModel.Model.DiskCache', 'JediModel.Gen.C09', 'JediModel.Drivers.C09']
+MODELS = ['DiskCache', 'NsPath']
+MODEL_TARGETS = ['JediModel.Model.DiskCache', 'JediModel.Model.NsPath', 'JediModel.Gen.C09', 'JediModel.Drivers.C09']
 LEAN_TARGETS = ['JediModel.Props.C09', 'JediModel.Drivers.C09']
 MANIFEST = dict(
     text='Lean model of the layers between a module file and the tree a Script uses: file system with '
@@ -74,13 +81,22 @@ MANIFEST = dict(
          'os.path.getmtime of the file" (stamp_is_fs_mtime, rfl on the translator-read constant); witness '
          'stale_if_stamp_truncated: a FileIO reporting whole seconds misses a strictly newer rewrite within the second '
          'the tree was cached / pickled in, although AllOk holds. '
+         'Namespace portions created later (Model/NsPath): which directories ModuleValue.py__path__ of a pkgutil / '
+         'pkg_resources namespace package hands to the helper (only existing ones: the os.path.isdir filter, read by '
+         'the translator as nsCfg.filterIsdir) and importlib\'s path_importer_cache as a state machine (a directory met '
+         'while missing gets a never-revalidated negative entry): ns_candidates_exist, no_negative_entry_partial, '
+         'later_portion_found_partial (every later look answers as a fresh process when the sys.path entries exist at '
+         'every look); witnesses stale_if_candidates_unfiltered, stale_if_sys_path_entry_created_later (known finding). '
          'Tie: translator (cache=/diff_cache= keywords, ModuleCache per InferenceState, decorators of '
          '_create_stub_map/_merge_create_stub_map, every get_last_modified of jedi/file_io.py and parso/file_io.py '
          'classified full-resolution / whole-second / unknown, parso\'s two '
          'comparisons as installed) + probed layer/version and stub-choice correspondence on generated mutation sequences '
          'at edit spacings from 1 ms (whole history within one clock second) to 10 s + '
          'direct oracle against a brand-new interpreter with an empty cache directory, also with the kernel\'s own '
-         'time stamps (stream wallclock).',
+         'time stamps (stream wallclock); streams nsportion (oracle: portions of a namespace package over several '
+         'sys.path entries created / filled / removed between Scripts vs a fresh process), nspath (py__path__ and the '
+         'whole lookup vs the model), nsfinder (the model\'s finder cache vs raw importlib, filtered and unfiltered '
+         'candidates).',
     note='Modelled not verified: parso parse/diff parser, pickle round trip, importlib finders in the helper '
          '(parameter `find` = function of the current file system; the FileFinder directory cache is exercised by '
          'stream `finder`, not modelled), the file system\'s time-stamp granularity (logical millisecond clock via '
@@ -339,6 +355,8 @@ def run_scenario(item):
     import subprocess
     if item.get('kind') == 'wallclock':
         return wallclock_probe(item)
+    if item.get('kind') in ('nsportion', 'nsfinder'):
+        return run_ns_scenario(item)
     root = os.path.join(SCRATCH, item['sid'])
     shutil.rmtree(root, ignore_errors=True)
     proj = os.path.join(root, 'proj')
@@ -684,10 +702,18 @@ def _run(ctx):
     scs += corpus_scenarios()
     # the kernel's own stamps
     wall = wallclock_items(ctx.seed)
+    # pkgutil-style namespace packages over several sys.path entries: portions created / removed between Scripts
+    nss = ns_scenarios(ctx)
+    # the same histories through raw importlib, candidates filtered by isdir (as py__path__ does) and unfiltered
+    nsf = [dict(sc, kind='nsfinder', sid='%s-%s' % (sc['sid'].replace('ns-', 'nsf-'), 'f' if filt else 'u'), filter=filt)
+           for sc in nss[:ctx.size(3, 20)] for filt in (True, False)]
+    extra = wall + nss + nsf
     t0 = time.time()
-    results = [r[0] for r in pmap('run_scenario', [[s] for s in scs + wall], jobs=max(14, len(scs) + len(wall))
+    results = [r[0] for r in pmap('run_scenario', [[s] for s in scs + extra], jobs=max(14, len(scs) + len(extra))
                                   if ctx.quick else 14, module='props.c09')]
-    wall_results = results[len(scs):]
+    wall_results = results[len(scs):len(scs) + len(wall)]
+    ns_results = results[len(scs) + len(wall):len(scs) + len(wall) + len(nss)]
+    nsf_results = results[len(scs) + len(wall) + len(nss):]
     results = results[:len(scs)]
     common.log('[c09] scenarios: %.1fs (%s)' % (time.time() - t0, ' '.join(
         '%s:%d steps:%ss' % (r['sid'], len(r['steps']), r.get('secs')) for r in results)))
@@ -697,7 +723,11 @@ def _run(ctx):
         reqs.append(rq)
         loadlists.append(loads)
         curids.append(cur)
-    answers = common.run_driver('C09', reqs) if ctx.model_ok else [None] * len(reqs)
+    ns_reqs = [ns_model_request(sc, r)[0] for sc, r in zip(nss, ns_results)] + [r['request'] for r in nsf_results]
+    answers = common.run_driver('C09', reqs + ns_reqs) if ctx.model_ok else [None] * len(reqs + ns_reqs)
+    ns_answers = answers[len(reqs):len(reqs) + len(nss)]
+    nsf_answers = answers[len(reqs) + len(nss):]
+    answers = answers[:len(reqs)]
     for sc, res, rq, loads, ans, cur_ids in zip(scs, results, reqs, loadlists, answers, curids):
         proj = os.path.join(SCRATCH, sc['sid'], 'proj')
         # ---- layers: model vs probes
@@ -775,6 +805,8 @@ def _run(ctx):
                               'query': label, 'stale_layer': layer},
                              expected=b, observed=a, how='./check C09 --replay <this file>')
     wallclock_stream(ctx, wall, wall_results)
+    ns_streams(ctx, nss, ns_results, ns_answers)
+    nsfinder_stream(ctx, nsf, nsf_results, nsf_answers)
     finder_stream(ctx)
     ctx.obligations['assumptions'] = [
         '`parse` is a parameter (parso parse == diff parse); the pickle round trip returns the pickled item',
@@ -1050,6 +1082,403 @@ def finder_stream(ctx):
                      how='props.c09.finder_probe(%r)' % it)
 
 
+# ----------------------------------------------------------------------- namespace portions (nsportion / nspath / nsfinder)
+#
+# pkgutil / pkg_resources style namespace packages (`__path__ = extend_path(__path__, __name__)`,
+# `declare_namespace(__name__)`) spread over several sys.path entries (Project(added_sys_path=...)): portions
+# `<entry>/nsp/` are CREATED, filled, emptied and removed between Script constructions; every step asks for every
+# module name of a pool - also for names that do not exist (yet): such a lookup walks over all candidate
+# directories.  What may go stale here is not a parser cache but importlib's path_importer_cache inside the
+# long-lived helper: a directory handed to PathFinder while it does not exist gets a negative entry (None) that is
+# never revalidated.  Model: Model/NsPath (which directories ModuleValue.py__path__ hands to the finder + the
+# finder's cache as a state machine).
+
+NS_PKG = 'nsp'
+NS_INIT = {'extend_path': 'from pkgutil import extend_path\n__path__ = extend_path(__path__, __name__)\n',
+           'declare_namespace': "__import__('pkg_resources').declare_namespace(__name__)\n"}
+NS_MODS = ['ma', 'mb', 'mc']
+
+
+def ns_content(m, v):
+    return '# %s v%d\nshared = %d\nv%d_%s = 1\ndef f%d(x):\n    return x\n' % (m, v, v, v, m, v)
+
+
+def _ns_roots(root, n):
+    return [os.path.join(root, 'r%d' % i) for i in range(n)]
+
+
+def _observe_ns(roots, cache_dir, with_paths=False):
+    """every module name of the pool through `from nsp import m` (completion of `m.`) and `import nsp.m`
+    (infer: which file), a new Script and a new Project each"""
+    import jedi
+    from pathlib import Path
+    jedi.settings.cache_directory = Path(cache_dir)
+    top = os.path.dirname(roots[0])
+    answers = {}
+
+    def rel(p):
+        return os.path.relpath(str(p), top) if p else None
+    info = {}
+    for m in NS_MODS:
+        for label, src, meth, line, col in (
+                ('ns-from-' + m, 'from %s import %s\n%s.' % (NS_PKG, m, m), 'complete', 2, len(m) + 1),
+                ('ns-dotted-' + m, 'import %s.%s\n' % (NS_PKG, m), 'infer', 1, len('import %s.' % NS_PKG) + 1)):
+            project = jedi.Project(roots[0], added_sys_path=roots[1:])
+            script = jedi.Script(src, path=os.path.join(roots[0], 'main.py'), project=project)
+            try:
+                res = getattr(script, meth)(line, col)
+                if meth == 'complete':
+                    answers[label] = sorted(c.name for c in res if not c.name.startswith('__'))
+                else:
+                    answers[label] = sorted([d.name, d.type, rel(d.module_path)] for d in res)
+            except Exception as e:
+                answers[label] = ['EXC', type(e).__name__]
+    if with_paths:
+        # the real ModuleValue.py__path__ of the package and the order of the roots on the sys path
+        project = jedi.Project(roots[0], added_sys_path=roots[1:])
+        script = jedi.Script('import %s\n' % NS_PKG, path=os.path.join(roots[0], 'main.py'), project=project)
+        try:
+            sp = [os.path.abspath(x) for x in script._inference_state.get_sys_path()]
+            info['sys_path_roots'] = [rel(x) for x in dict.fromkeys(sp) if x in roots]
+            vals = [v for d in script.infer(1, len('import ') + 1) for v in d._name.infer()]
+            paths = [v.py__path__() for v in vals if hasattr(v, 'py__path__')]
+            info['py_path'] = sorted(rel(x) for x in paths[0]) if paths and paths[0] is not None else None
+        except Exception as e:
+            info['error'] = '%s: %s' % (type(e).__name__, e)
+    return {'answers': answers, 'info': info}
+
+
+def observe_ns_once(item):
+    return _observe_ns(item['roots'], item['cache'])
+
+
+def run_ns_scenario(item):
+    """item = {sid, observer, flavor, nroots, steps: [[op...]...]}; ops: mkentry/portion/mod/delmod/rmportion"""
+    import subprocess
+    if item.get('kind') == 'nsfinder':
+        return nsfinder_probe(item)
+    root = os.path.join(SCRATCH, item['sid'])
+    shutil.rmtree(root, ignore_errors=True)
+    os.makedirs(root)
+    roots = _ns_roots(root, item['nroots'])
+    cache = os.path.join(root, 'cache')
+    os.makedirs(cache)
+    clock = Clock('sec', 0)
+    pickles = {}
+    env = dict(os.environ)
+    env['PYTHONPATH'] = os.pathsep.join([common.REPO, os.path.join(common.VERIF, 'harness'), common.VERIF])
+    t_start = time.time()
+
+    def spawn(cache_dir, tag):
+        inp = os.path.join(root, 'in-%s.json' % tag)
+        outp = os.path.join(root, 'out-%s.json' % tag)
+        with open(inp, 'w') as f:
+            json.dump([{'roots': roots, 'cache': cache_dir}], f)
+        p = subprocess.Popen([sys.executable, os.path.join(common.VERIF, 'harness', 'worker.py'),
+                              'props.c09', 'observe_ns_once', inp, outp], env=env, cwd=root,
+                             stdout=subprocess.DEVNULL, stderr=subprocess.PIPE, text=True)
+        return p, outp
+
+    def collect(p, outp):
+        _, err = p.communicate(timeout=600)
+        if p.returncode != 0:
+            raise RuntimeError('observer failed: ' + (err or '')[-1500:])
+        with open(outp) as f:
+            return json.load(f)[0]
+
+    def rel(p):
+        return os.path.relpath(p, root)
+
+    def stamp_up(p):
+        while len(p) > len(root):
+            if os.path.exists(p):
+                _stamp(p, clock.now)
+            p = os.path.dirname(p)
+    out = []
+    for si, ops in enumerate(item['steps']):
+        model_ops = []
+        for op in ops:
+            clock.tick()
+            r = roots[op['root']]
+            pdir = os.path.join(r, NS_PKG)
+            if op['op'] == 'mkentry':
+                if not os.path.isdir(r):
+                    os.makedirs(r)
+                    model_ops.append({'t': 'mkdir', 'd': rel(r)})
+                if op['root'] == 0:
+                    with open(os.path.join(r, 'main.py'), 'w') as f:
+                        f.write('')
+                stamp_up(r)
+            elif op['op'] == 'portion':
+                os.makedirs(pdir)
+                with open(os.path.join(pdir, '__init__.py'), 'w') as f:
+                    f.write(NS_INIT[item['flavor']])
+                _stamp(os.path.join(pdir, '__init__.py'), clock.now)
+                model_ops.append({'t': 'mkdir', 'd': rel(pdir)})
+                stamp_up(pdir)
+            elif op['op'] == 'mod':
+                pth = os.path.join(pdir, op['name'] + '.py')
+                with open(pth, 'w') as f:
+                    f.write(ns_content(op['name'], op['version']))
+                _stamp(pth, clock.now)
+                model_ops.append({'t': 'addMod', 'd': rel(pdir), 'm': op['name']})
+                stamp_up(pdir)
+            elif op['op'] == 'delmod':
+                os.remove(os.path.join(pdir, op['name'] + '.py'))
+                model_ops.append({'t': 'delMod', 'd': rel(pdir), 'm': op['name']})
+                stamp_up(pdir)
+            elif op['op'] == 'rmportion':
+                shutil.rmtree(pdir)
+                model_ops.append({'t': 'rmdir', 'd': rel(pdir)})
+                stamp_up(r)
+        clock.tick()
+        empty = os.path.join(root, 'empty-%d' % si)
+        os.makedirs(empty)
+        tp = spawn(empty, 'truth%d' % si)
+        if item['observer'] == 'same':
+            obs = _observe_ns(roots, cache, with_paths=True)
+        else:
+            obs = collect(*spawn(cache, 'warm%d' % si))
+            model_ops.insert(0, {'t': 'newProcess'})
+        truth = collect(*tp)
+        shutil.rmtree(empty, ignore_errors=True)
+        _restamp_pickles(cache, clock, pickles)
+        out.append({'answers': obs['answers'], 'truth': truth['answers'], 'info': obs['info'],
+                    'model_ops': model_ops, 'entries_present': [os.path.isdir(r) for r in roots],
+                    'portions': [os.path.isdir(os.path.join(r, NS_PKG)) for r in roots]})
+    shutil.rmtree(root, ignore_errors=True)
+    return {'sid': item['sid'], 'steps': out, 'secs': round(time.time() - t_start, 1)}
+
+
+def gen_ns_scenario(rng, sid, observer, missing_entry=False, forced=None):
+    """a pkgutil-style namespace package over 2-3 sys.path entries.  Never the same module name in two portions
+    (ModuleValue.py__path__ returns list(set(...)): which portion wins would depend on the hash seed).
+    `missing_entry`: the last sys.path ENTRY itself does not exist at first (known finding when it is created and
+    used later); otherwise every entry exists from the start and only portions `<entry>/nsp` come and go."""
+    nroots = rng.choice([2, 3])
+    ver = {'n': 0}
+    where = {}                      # module name -> root
+    portions = {0}
+    entries = set(range(nroots)) - ({nroots - 1} if missing_entry else set())
+
+    def mod(i, m):
+        ver['n'] += 1
+        where[m] = i
+        return {'op': 'mod', 'root': i, 'name': m, 'version': ver['n']}
+    steps = [[{'op': 'mkentry', 'root': i} for i in sorted(entries)] + [{'op': 'portion', 'root': 0}, mod(0, 'ma')]]
+    moves = list(forced or []) + [None] * rng.randint(1, 2)
+    for mv in moves[:4]:
+        free = [m for m in NS_MODS if m not in where]
+        absent = [i for i in range(nroots) if i not in portions]
+        cands = []
+        if absent and free:
+            cands += ['new-portion'] * 3
+        if free:
+            cands.append('add-mod')
+        if where:
+            cands += ['overwrite', 'del-mod']
+        if len(portions) > 1:
+            cands.append('rm-portion')
+        mv = mv if mv in cands else rng.choice(cands)
+        ops = []
+        if mv == 'new-portion':
+            i = absent[-1] if missing_entry and (nroots - 1) in absent else rng.choice(absent)
+            if i not in entries:
+                ops.append({'op': 'mkentry', 'root': i})
+                entries.add(i)
+            portions.add(i)
+            ops += [{'op': 'portion', 'root': i}, mod(i, rng.choice(free))]
+        elif mv == 'add-mod':
+            ops.append(mod(rng.choice(sorted(portions)), rng.choice(free)))
+        elif mv == 'overwrite':
+            m = rng.choice(sorted(where))
+            ops.append(mod(where[m], m))
+        elif mv == 'del-mod':
+            m = rng.choice(sorted(where))
+            ops.append({'op': 'delmod', 'root': where.pop(m), 'name': m})
+        else:
+            i = rng.choice(sorted(portions - {0}))
+            portions.discard(i)
+            for m in [m for m in where if where[m] == i]:
+                where.pop(m)
+            ops.append({'op': 'rmportion', 'root': i})
+        steps.append(ops)
+    return {'kind': 'nsportion', 'sid': sid, 'observer': observer, 'nroots': nroots,
+            'flavor': rng.choice(sorted(NS_INIT)), 'missing_entry': missing_entry, 'steps': steps}
+
+
+def ns_scenarios(ctx):
+    rng = ctx.subrng('nsportion')
+    out = [gen_ns_scenario(rng, 'ns-late-%d' % ctx.seed, 'same', forced=['new-portion', 'overwrite']),
+           gen_ns_scenario(rng, 'ns-entry-%d' % ctx.seed, 'same', missing_entry=True, forced=['new-portion']),
+           gen_ns_scenario(rng, 'ns-warm-%d' % ctx.seed, 'warm', forced=['new-portion'])]
+    for i in range(ctx.size(2, 40)):
+        out.append(gen_ns_scenario(rng, 'ns-%d-%d' % (ctx.seed, i), 'same' if i % 4 != 3 else 'warm',
+                                   missing_entry=(i % 5 == 4)))
+    return out
+
+
+def ns_model_request(sc, res, filt=None):
+    """the file-system history + one query per module name and step, for Drivers/C09 `nshistory`"""
+    steps, events = [], []
+    for si, st in enumerate(res['steps']):
+        steps += st['model_ops']
+        order = st['info'].get('sys_path_roots') or ['r%d' % i for i in range(sc['nroots'])]
+        entries = [[r, r + '/' + NS_PKG] for r in order]
+        for m in NS_MODS:
+            events.append((si, m, len(steps)))
+            steps.append({'t': 'query', 'entries': entries, 'm': m})
+    rq = {'op': 'nshistory', 'steps': steps}
+    if filt is not None:
+        rq['filter'] = filt
+    return rq, events
+
+
+def ns_streams(ctx, scs, results, answers):
+    for sc, res, (rq, events), ans in zip(scs, results, [ns_model_request(s, r) for s, r in zip(scs, results)], answers):
+        missing_before = [False] * sc['nroots']     # was the sys.path entry missing at an earlier look of this process
+        for si, st in enumerate(res['steps']):
+            for label in sorted(st['answers']):
+                a, b = st['answers'][label], st['truth'][label]
+                ctx.count('nsportion', (sc['sid'], si, label), nontrivial=si > 0 and bool(b),
+                          bucket='%s/%s/%s/%s' % (sc['observer'], sc['flavor'],
+                                                  'entry-missing-at-first' if sc['missing_entry'] else 'entries-exist',
+                                                  'found' if b else 'absent'),
+                          sample={'label': label, 'answer': a, 'portions': st['portions']})
+                if a != b:
+                    late_entry = sc['observer'] == 'same' and any(
+                        missing_before[i] and st['entries_present'][i] for i in range(sc['nroots']))
+                    shape = 'sys-path-entry-created-after-first-query' if late_entry else 'ns-portion-stale'
+                    ctx.fail('nsportion', 'a module of a pkgutil-style namespace package (portions created / removed '
+                                          'between Script constructions) is answered differently from a fresh process '
+                                          'with an empty cache on the same files',
+                             {'shape': shape, 'observer': sc['observer'], 'flavor': sc['flavor'], 'query': label,
+                              'step': si, 'ns_scenario': dict(sc, steps=sc['steps'][:si + 1]),
+                              'portions': st['portions'], 'entries_present': st['entries_present']},
+                             expected=b, observed=a, how='./check C09 --replay <this file>')
+            for i in range(sc['nroots']):
+                missing_before[i] = missing_before[i] or not st['entries_present'][i]
+        # ---- correspondence: ModuleValue.py__path__ and the whole lookup vs Model/NsPath
+        if ans is None:
+            continue
+        if isinstance(ans, dict):
+            raise common.InfraError('driver error: %r' % ans)
+        for si, m, idx in events:
+            st = res['steps'][si]
+            mo = ans[idx]
+            if sc['observer'] == 'same' and 'py_path' in st['info']:
+                real = st['info']['py_path']
+                ctx.count('nspath', (sc['sid'], si, m), nontrivial=len(real or []) > 1,
+                          bucket='%d-of-%d-portions' % (sum(st['portions']), sc['nroots']),
+                          sample={'py_path': real, 'portions': st['portions']})
+                if real != sorted(mo.get('cands') or []):
+                    ctx.tie_broken('correspondence:nspath',
+                                   short({'sid': sc['sid'], 'step': si, 'real py__path__': real,
+                                          'model': mo.get('cands'), 'portions': st['portions'],
+                                          'entries_present': st['entries_present']}, 900))
+            got = st['answers'].get('ns-dotted-' + m)
+            real_dir = os.path.dirname(got[0][2]) if got and isinstance(got[0], list) and got[0][2] else None
+            if got and got[0] == 'EXC':
+                continue
+            ctx.count('nspath', (sc['sid'], si, m, 'found'), nontrivial=real_dir is not None,
+                      bucket='lookup/%s' % ('found' if real_dir else 'absent'), sample={'m': m, 'dir': real_dir})
+            if real_dir != mo.get('found'):
+                ctx.tie_broken('correspondence:nspath',
+                               short({'sid': sc['sid'], 'step': si, 'module': m, 'real': real_dir,
+                                      'model': mo, 'portions': st['portions'],
+                                      'entries_present': st['entries_present'], 'observer': sc['observer']}, 900))
+
+
+# ----------------------------------------------------------------------- nsfinder: the model's finder vs importlib
+
+def nsfinder_probe(item):
+    """raw importlib in ONE process (no jedi): the history of an ns scenario, the candidate directories either
+    filtered by os.path.isdir (what ModuleValue.py__path__ does) or not; reports what PathFinder finds and which
+    candidates got a negative path_importer_cache entry"""
+    import importlib.machinery
+    root = os.path.join(SCRATCH, item['sid'])
+    shutil.rmtree(root, ignore_errors=True)
+    os.makedirs(root)
+    roots = _ns_roots(root, item['nroots'])
+    t = [BASE_MS]
+
+    def stamp_up(p):
+        t[0] += 10000
+        while len(p) > len(root):
+            if os.path.exists(p):
+                _stamp(p, t[0])
+            p = os.path.dirname(p)
+    out = []
+    steps = []
+    for ops in item['steps']:
+        for op in ops:
+            r = roots[op['root']]
+            pdir = os.path.join(r, NS_PKG)
+            rel = os.path.relpath(pdir, root)
+            if op['op'] == 'mkentry':
+                if not os.path.isdir(r):
+                    os.makedirs(r)
+                    steps.append({'t': 'mkdir', 'd': os.path.relpath(r, root)})
+                stamp_up(r)
+            elif op['op'] == 'portion':
+                os.makedirs(pdir)
+                with open(os.path.join(pdir, '__init__.py'), 'w') as f:
+                    f.write(NS_INIT[item['flavor']])
+                steps.append({'t': 'mkdir', 'd': rel})
+                stamp_up(pdir)
+            elif op['op'] == 'mod':
+                with open(os.path.join(pdir, op['name'] + '.py'), 'w') as f:
+                    f.write(ns_content(op['name'], op['version']))
+                steps.append({'t': 'addMod', 'd': rel, 'm': op['name']})
+                stamp_up(pdir)
+            elif op['op'] == 'delmod':
+                os.remove(os.path.join(pdir, op['name'] + '.py'))
+                steps.append({'t': 'delMod', 'd': rel, 'm': op['name']})
+                stamp_up(pdir)
+            elif op['op'] == 'rmportion':
+                shutil.rmtree(pdir)
+                steps.append({'t': 'rmdir', 'd': rel})
+                stamp_up(r)
+        entries = [[os.path.relpath(r, root), os.path.relpath(os.path.join(r, NS_PKG), root)] for r in roots]
+        for m in NS_MODS:
+            # the top-level lookup walks the sys.path entries themselves, then the package's candidates
+            top = importlib.machinery.PathFinder.find_spec(NS_PKG, list(roots))
+            found = None
+            if top is not None and top.origin:
+                cands = [os.path.join(r, NS_PKG) for r in roots]
+                if item['filter']:
+                    cands = [c for c in cands if os.path.isdir(c)]
+                spec = importlib.machinery.PathFinder.find_spec(NS_PKG + '.' + m, cands)
+                if spec is not None and spec.origin:
+                    found = os.path.relpath(os.path.dirname(spec.origin), root)
+            neg = sorted(os.path.relpath(k, root) for k, v in sys.path_importer_cache.items()
+                         if v is None and k.startswith(root + os.sep))
+            steps.append({'t': 'query', 'entries': entries, 'm': m})
+            out.append({'idx': len(steps) - 1, 'm': m, 'found': found, 'neg': neg})
+    shutil.rmtree(root, ignore_errors=True)
+    return {'sid': item['sid'], 'request': {'op': 'nshistory', 'filter': item['filter'], 'steps': steps},
+            'queries': out}
+
+
+def nsfinder_stream(ctx, items, results, answers):
+    for it, res, ans in zip(items, results, answers):
+        if ans is None:
+            continue
+        if isinstance(ans, dict):
+            raise common.InfraError('driver error: %r' % ans)
+        for q in res['queries']:
+            mo = ans[q['idx']]
+            ctx.count('nsfinder', (it['sid'], q['idx']), nontrivial=bool(q['neg']) or q['found'] is not None,
+                      bucket='%s/%s/%s' % ('isdir-filter' if it['filter'] else 'unfiltered',
+                                           'found' if q['found'] else 'absent', 'neg' if q['neg'] else 'no-neg'),
+                      sample={'filter': it['filter'], 'found': q['found'], 'neg': q['neg']})
+            if q['found'] != mo.get('found') or q['neg'] != sorted(mo.get('neg') or []):
+                ctx.tie_broken('correspondence:nsfinder',
+                               short({'sid': it['sid'], 'filter': it['filter'], 'module': q['m'],
+                                      'real importlib': [q['found'], q['neg']],
+                                      'model': [mo.get('found'), mo.get('neg')]}, 900))
+
+
 def replay(ctx, payload):
     from props.c08 import pmap
     inp = payload['input']
@@ -1064,6 +1493,14 @@ def replay(ctx, payload):
                     print('fresh   :', r['truth'][inp['query']])
                     return 1
         return 0
+    if 'ns_scenario' in inp:
+        os.makedirs(SCRATCH, exist_ok=True)
+        res = pmap('run_scenario', [[dict(inp['ns_scenario'], sid='replay-ns')]], jobs=1, module='props.c09')[0][0]
+        st = res['steps'][inp['step']]
+        print('query   :', inp['query'], ' portions:', st['portions'])
+        print('observer:', st['answers'][inp['query']])
+        print('fresh   :', st['truth'][inp['query']])
+        return 1 if st['answers'][inp['query']] != st['truth'][inp['query']] else 0
     if 'scenario' not in inp:
         print(inp)
         return 0
